@@ -138,7 +138,7 @@ def main(tier, replay=None):
         chk.oblige("build:vmodel", False, out[-2000:])
         return chk.finish()
     vm = vlib.vmodel()
-    cases = [json.load(open(replay))["case"]] if replay else gen_cases(tier, chk.seed)
+    cases = [c for c in [json.load(open(replay))["case"]] if "style" not in c] if replay else gen_cases(tier, chk.seed)
     chk.rule = ("generated two-way diffs (starts 1 .. 2*10^7, omitted counts, zero-length sides, 1-3 hunks per file) in unified view with five "
                 "number formats (incl. both numbers in one field, swapped) and in side-by-side view at several widths with wrapping; "
                 "non-trivial = a hunk with both removed and added lines")
@@ -249,10 +249,49 @@ def main(tier, replay=None):
         if why:
             chk.violation({"property": PID, "why": "; ".join(why[:3]), "case": c, "input": "\n".join(gdiff.diff_lines(d))[:3000],
                            "rows": rows[:40]})
+    # ---- the hunk-header clause: with a hunk-header style that includes them, the header of every hunk shows the path of
+    #      the file the hunk belongs to (the new name; the old one for a deleted file) and the hunk's start in the new file
+    hcases = []
+    for i in range(60 if tier == "quick" else 1000):
+        r = vlib.case_rng(chk.seed, PID, ("hunk-header", i))
+        tok = gdiff.Tok()
+        secs = [gdiff.gen_section(r, tok, kind=r.choice(["mod", "renmod", "renmod", "add", "del", "modemod"])) for _ in range(r.randint(1, 3))]
+        hcases.append({"diff": {"pre": [], "sections": secs}, "args": r.choice([[], ["--side-by-side"], ["--line-numbers"], ["--navigate"]]),
+                       "style": r.choice(["file line-number", "line-number file syntax", "file line-number bold blue"])})
+    if replay:
+        hcases = [c for c in [json.load(open(replay)).get("case")] if c and "style" in c]
+
+    def work_h(c):
+        return vlib.run_delta(["--no-gitconfig", "--paging", "never", "--width", "200", "--hunk-header-style", c["style"],
+                               "--hunk-header-decoration-style", "none"] + c["args"], stdin=("\n".join(gdiff.diff_lines(c["diff"])) + "\n").encode())
+    with ThreadPoolExecutor(max_workers=vlib.NCPU) as ex:
+        hres = list(ex.map(work_h, hcases))
+    for c, (rc, out, err) in zip(hcases, hres):
+        chk.case(("hh", tuple(gdiff.diff_lines(c["diff"])), c["style"], tuple(c["args"])), True, {"style": c["style"], "args": c["args"]})
+        chk.count("hunk-header-path")
+        if rc != 0:
+            chk.count("crashed-not-observed")
+            continue
+        rows = [x.rstrip() for x in term.strip(out).split("\n")]
+        why = []
+        pos = 0
+        for s_ in c["diff"]["sections"]:
+            path = s_["new"] if s_["new"] != "/dev/null" else s_["old"]
+            for h in s_["hunks"]:
+                want = f"{path}:{h['new_start']}:"
+                hit = next((j for j in range(pos, len(rows)) if (rows[j][2:] if rows[j].startswith("• ") else rows[j]).startswith(want)), None)   # --navigate puts a label first
+                if hit is None:
+                    near = [x for x in rows[pos:] if re.match(r"^\S.*:\d+:", x)][:1]
+                    why.append(f"hunk {h['header']!r} of {path!r}: no header row starting with {want!r} (next header-like row: {near})")
+                    break
+                pos = hit + 1
+        if why:
+            chk.violation({"property": PID, "why": "; ".join(why[:3]), "case": c, "shape": "hunk-header-path",
+                           "input": "\n".join(gdiff.diff_lines(c["diff"]))[:3000], "rows": rows[:40]})
     chk.oblige("correspondence:unified-gutters", mism == 0, f"{mism} of {ncorr} hunks show numbers different from the model's")
     chk.extra["traces_validated_against_impl"] = ncorr - mism
     chk.assumptions = ["tokens are placed at the start or end of each line; in narrow side-by-side panels a token at the end of a long line may be "
                        "on a continuation row, where the oracle only requires that no number is shown unless a line starts there",
-                       "the position printed in hunk headers is checked by C14's header oracle"]
+                       "hunk-header clause: path and new-file start are checked with hunk-header styles that include `file` and `line-number`, decoration none"]
     vm.close()
     return chk.finish()
